@@ -86,6 +86,16 @@ def _set_multiple_entries(net, table, index, preserve_dtypes=True, defaults_to_f
 
     entries = {k: check_entry(v) for k, v in entries.items()}
 
+    if preserve_dtypes:
+        # refuse NaN in boolean columns before anything is written (_preserve_dtypes would only
+        # notice after the rows have been added)
+        for col, val in entries.items():
+            if col in dtypes.index and (dtypes.at[col] == bool or dtypes.at[col] == np.bool_) \
+                    and np.any(pd.isnull(val)):
+                raise UserWarning(f"Encountered NaN value(s) in a boolean column {col}! "
+                                  f"NaN are casted to True by default, which can lead to errors. "
+                                  f"Replace NaN values with True or False first.")
+
     dd = pd.DataFrame(index=index, columns=net[table].columns)
     dd = dd.assign(**entries)
 
